@@ -146,6 +146,19 @@ func (s *State) callExt(e *Expect, sym string, input []byte) (content string, fa
 		s.ooe("unknown external symbol " + sym)
 		return "", true
 	}
+	if x.Static != nil {
+		// static-load symbol: no code runs; the entry of the language in force, else the default entry
+		c, ok := x.StaticContent(s.Lang)
+		if !ok {
+			s.ooe("static symbol without default entry")
+			return "", true
+		}
+		s.Stats["static_load"]++
+		if _, tr := x.Static[s.Lang]; s.Lang != "" && !tr {
+			s.Stats["static_load_fallback_to_default"]++
+		}
+		return c, false
+	}
 	k := s.Calls[sym]
 	s.Calls[sym] = k + 1
 	b := &x.Script[k%len(x.Script)]
